@@ -1391,7 +1391,7 @@ def c18_old_deltas_aligned(env, ob):
 
 
 @obligation(id="C13.vacuum_order", funcs="Database::vacuum::{closure#0}",
-            bounds="every path of the vacuum worker closure; callees uninterpreted")
+            bounds="every path of the vacuum worker closure; callees uninterpreted", native="c13_rollback_right_before_vacuum")
 def c13_vacuum_order(env, ob):
     """The horizon is read before the vacuum transaction begins, the aborted bitmap is cleared exactly up to that horizon,
     and the checkpoint (flush) happens after the vacuum transaction committed."""
@@ -3946,19 +3946,19 @@ BP_ASSUME = ("cell payload sizes: multiples of 8 in [8, ideal_max_payload_size(p
              "(Vec<usize> / VecDeque / RangeInclusive.rev(): literal lengths and indices along each path)")
 
 
-@obligation(id="C10.balance_plan[2..5 cells]", funcs=BP_FUNCS, assume=BP_ASSUME,
-            bounds="page 4096, min_keys 3, every sequence of 2..5 cells with ANY admissible sizes; every path of the planner")
+@obligation(id="C10.balance_plan[2..6 cells]", funcs=BP_FUNCS, assume=BP_ASSUME,
+            bounds="page 4096, min_keys 3, every sequence of 2..6 cells with ANY admissible sizes; every path of the planner")
 def c10_balance_plan_q(env, ob):
-    return run_balance_plan(env, ob, [2, 3, 4, 5])
+    return run_balance_plan(env, ob, [2, 3, 4, 5, 6])
 
 
-@obligation(id="C10.balance_plan[6..7 cells]", tier="thorough", funcs=BP_FUNCS, assume=BP_ASSUME,
-            bounds="page 4096, min_keys 3, every sequence of 6..7 cells with ANY admissible sizes (three pages)")
+@obligation(id="C10.balance_plan[7 cells]", tier="thorough", funcs=BP_FUNCS, assume=BP_ASSUME,
+            bounds="page 4096, min_keys 3, every sequence of 7 cells with ANY admissible sizes (three pages)")
 def c10_balance_plan_t(env, ob):
-    return run_balance_plan(env, ob, [6, 7])
+    return run_balance_plan(env, ob, [7])
 
 
-@obligation(id="C10.balance_plan[8 cells]", tier="thorough", funcs=BP_FUNCS, assume=BP_ASSUME,
+@obligation(id="C10.balance_plan[8 cells]", tier="off", funcs=BP_FUNCS, assume=BP_ASSUME,
             bounds="page 4096, min_keys 3, every sequence of 8 cells with ANY admissible sizes (three pages with room to spare)")
 def c10_balance_plan_t8(env, ob):
     return run_balance_plan(env, ob, [8])
